@@ -27,7 +27,9 @@ CONSTANTS StdNotifs,           \* the MessageMethod.NOTIFICATION_* names (genera
           NotifErrorCrashes, NonsenseThrough, NoneThrough
 
 Kinds == {"request", "notification"}
-CoreM == {"initialize", "ping", "toolsList", "resourcesList", "customOk"}      \* handler returns a response
+CoreM == {"initialize", "ping", "toolsList", "resourcesList", "customOk", "customAck", "customStray"}      \* handler returns a response
+\* customAck answers whatever it is given, with or without an id (a response object with a null id
+\* for a notification); customStray hands a stray non-None object back for an id-less message
 ToolM == {"toolsCallOk", "toolsCallRaises", "toolsCallKeyError", "toolsCallNonsense", "toolsCallUnknown", "toolsCallUnhashable"}
 ResM  == {"resReadOk", "resReadRaises", "resReadKeyError", "resReadUnknown"}
 CustM == {"customRaises", "customKeyError", "customNonsense", "customNone"}
@@ -49,7 +51,8 @@ Registered(m) == m \in CoreM \cup ToolM \cup ResM \cup CustM \cup (StdNotifs \ca
 \*   "none"      returns (None, None)
 NameKnown(m, p) == p \in {"ok", "argsNull", "argsList"}
 Handler(m, p, k) ==
-  IF k = "notification" /\ m \in {"ping", "initialize", "toolsList", "resourcesList", "customOk", "notifications/message"} \cup ToolM \cup ResM
+  IF m \in {"customAck", "customStray"} THEN "resp"
+  ELSE IF k = "notification" /\ m \in {"ping", "initialize", "toolsList", "resourcesList", "customOk", "notifications/message"} \cup ToolM \cup ResM
     THEN "raise"          \* building a response (or reading message.id) without an id fails inside the handler
   ELSE IF m \in {"initialize", "ping", "toolsList", "resourcesList", "customOk", "notifications/message"} THEN "resp"
   ELSE IF m \in ToolM THEN
@@ -123,5 +126,5 @@ CodeTable ==
     /\ (msg.m \in {"resReadRaises", "resReadKeyError"} /\ msg.p = "ok" => out.iserr /\ out.code = 32603)
     /\ (msg.m = "toolsCallUnknown" /\ NameKnown(msg.m, msg.p) => out.iserr /\ out.code = 32602)
     /\ (msg.m = "resReadUnknown" /\ msg.p \in {"ok", "argsNull", "argsList"} => out.iserr /\ out.code = 32602)
-    /\ (msg.m \in {"ping", "toolsList", "resourcesList", "customOk"} => ~out.iserr)
+    /\ (msg.m \in {"ping", "toolsList", "resourcesList", "customOk", "customAck", "customStray"} => ~out.iserr)
 =============================================================================
